@@ -4,6 +4,11 @@ manifest is always valid)."""
 import json, sys
 
 CHECKS = {
+ "C20": dict(
+   text="Structural necessary conditions of the in-memory log ring, decided on every path from the logger API: cursor, slot values and ring traversals only under the core's mutex (of the same core value); no core is built with a by-value copy of another core's cursor (one cursor, one lock per ring); entry objects are never rewritten once stored; Write stores at the cursor and then advances by exactly one Next().",
+   note="Does not decide 'exactly the most recent N, newest first' (index arithmetic in GetLogs) for every history. Trusted: go/ssa; container/ring and zap as named APIs; lock identity per (owner type, field) plus a same-receiver check inside each function.",
+   technique="must-lockset analysis + constructor/aliasing audit + store-freshness and ordering checks on go/ssa",
+   ref="DESIGN.md section 5 C20"),
  "C18": dict(
    text="Checked-arithmetic discipline of core/currency decided on every feasible path: each integer + - * / %, each numeric conversion and the panicking decimal constructor is discharged by an accepted guard idiom (operand wrap check, subtrahend<=minuend, post-division check over a non-zero factor, non-zero divisor, sign/NaN/2^64 rejection before float->uint64, NaN/Inf rejection before NewFromFloat) or reported; plus an operator table of the named helpers. The package is small, loop-free and pure, so this covers nearly the whole 'never wraps, saturates or panics' clause.",
    note="Does not decide the decimal-exponent logic of ParseZCN/ToZCN (library semantics) nor the format/parse round trip; exactness is decided only as 'result of the promised operator on the parameters, reached only when the guard excludes wrap-around'. An idiom outside the guard table is reported as undecided. Trusted: go/ssa; structural equality of guard atoms.",
